@@ -34,7 +34,7 @@ class C09(BaseCheck):
              'scales.resurrector:ResurrectorSink.AsyncProcessRequest', 'scales.resurrector:ResurrectorSink.Close')
   REQUIRED_ANCHORS = ANCHORS
   REQUIRED_CLASSES = ('thrift', 'mux', 'multi-endpoint', 'outage:refuse', 'outage:blackhole', 'down-at-first-connect', 'recovered',
-                      'fail-fast-seen', 'backoff-capped', 'closed-while-down', 'closed-on-error', 'staggered-outages',
+                      'fail-fast-seen', 'backoff-capped', 'closed-while-down', 'back-under-the-same-name-at-another-address', 'closed-on-error', 'staggered-outages',
                       'recover:first-down-first', 'recover:last-down-first', 'rotation-during-outage', 'waiters-at-outage', 'stock-resurrector',
                       'direct:close-same-instant-attempt-completes', 'outage:host-goes-silent', 'outage:host-goes-silent-mux', 'outages:thrift', 'outages:mux', 'outage:accept-drop')
   ASSUMPTIONS = ('initial_wait_interval > 1 (the implementation\'s x**exponent back-off only grows above 1)',
@@ -365,11 +365,16 @@ class C09(BaseCheck):
     stock = (init, mx, ex) == (5, 60, 1.2) and rng.random() < 0.6
     if stock:
       classes.add('stock-resurrector')
+    # the endpoint is given by name and the service fails over: it comes back under the same name and port
+    # at another address (the server set does not change)
+    named = idx % 6 == 2
+    moves = 0
     w = StackWorld(env, rng, kind=kind, n_eps=1, balancer=rng.choice(['aperture', 'heap']), timeout=1.0,
                    open_timeout=0 if first_down else None, policy=pol, pool=pool,
                    resurrector=None if stock else {'initial_wait_interval': init, 'max_wait_interval': mx, 'backoff_exponent': ex},
                    server_modes=[down_mode if first_down else 'up'],
-                   connect_latency=rng.choice([0.0005, 0.01, 0.1]))
+                   connect_latency=rng.choice([0.0005, 0.01, 0.1]),
+                   dns={'ep0': 'addr-0'} if named else None)
     srv = w.servers[0]
     srv.sim.syn_timeout = 3.0
     facts = {'stack': kind, 'params': [init, mx, ex]}
@@ -424,6 +429,12 @@ class C09(BaseCheck):
         dur = max(dur, 70.0)       # longer than a ping period (30-40 s) plus its 5 s grace
       tick(int(dur / delta))
       env.advance(rng.random() * delta)
+      if named:
+        classes.add('back-under-the-same-name-at-another-address')
+        moves += 1
+        w.net.addr_owner.pop(w.net.dns['ep0'], None)
+        w.net.dns['ep0'] = 'addr-%d' % moves
+        w.net.addr_owner['addr-%d' % moves] = 'ep0'
       srv.sim.mode = 'up'
       if pol.silent:
         pol.silent = False
